@@ -178,6 +178,7 @@ func generate(w *world, seed int64, tier string, search bool) []string {
 		r := vh.NewRng(seed, prop, "ops:"+g.name, gi)
 		c := w.refs[g.model]
 		emit("PARAMS " + g.name)
+		emit("HYP " + g.name)
 		// all pairs of the exceptional pool
 		for _, p := range pool {
 			for _, q := range pool {
@@ -302,7 +303,7 @@ func generate(w *world, seed int64, tier string, search bool) []string {
 				if both[n] || thorough || search || n == lens[len(lens)-1] {
 					op = "MSM "
 				}
-				emit(strings.TrimSpace(op + g.name + " " + strings.Join(w.msmTerms(g, pool, rnd, r, n), " ")))
+				emit(strings.TrimSpace(op + g.name + " " + strings.Join(w.msmTerms(g, pool, rnd, r, n, op == "MSMN "), " ")))
 			}
 			// window-boundary cases: all scalars zero, all identity, one non-zero term only, the last term only
 			for _, n := range []int{8, 16} {
@@ -337,6 +338,29 @@ func generate(w *world, seed int64, tier string, search bool) []string {
 					}
 					emit(strings.TrimSpace("LMSM " + g.name + " " + strings.Join(ts, " ")))
 				}
+			}
+		}
+		// pkg/base/utils/algebrautils: generic ScalarMul / MultiScalarMul (big-endian natural numbers)
+		if g.name == "k256" || g.name == "ed25519/full" || g.name == "p256" {
+			for _, k := range []*big.Int{big.NewInt(0), big.NewInt(1), big.NewInt(0xf0), new(big.Int).Sub(g.n, big.NewInt(1)), g.n,
+				new(big.Int).Lsh(big.NewInt(1), 256), r.BigBelow(g.n), r.BigBits(300)} {
+				p := pool[4]
+				emit("AUMUL " + g.name + " " + hexZ(k) + " " + p.text)
+			}
+			for _, n := range []int{0, 1, 5, 8, 9, 17, 33} {
+				ts := make([]string, n)
+				for i := range ts {
+					p := vh.Pick(r, pool)
+					for !p.sub {
+						p = vh.Pick(r, pool)
+					}
+					k := r.BigBits(8 * r.Intn(34))
+					if r.Chance(1, 5) {
+						k = big.NewInt(0)
+					}
+					ts[i] = term(k, p.text)
+				}
+				emit(strings.TrimSpace("AUMSM " + g.name + " " + strings.Join(ts, " ")))
 			}
 		}
 		if g.name == "ed25519/full" {
@@ -472,7 +496,7 @@ func (g *group) smulBig(p any, k *big.Int) any {
 }
 
 // msmTerms builds n terms: zero scalars, small scalars, n-1, n, random; identity, repeated and opposite points.
-func (w *world) msmTerms(g *group, pool, rnd []pitem, r *vh.Rng, n int) []string {
+func (w *world) msmTerms(g *group, pool, rnd []pitem, r *vh.Rng, n int, light bool) []string {
 	ts := make([]string, 0, n)
 	var prev pitem
 	for i := 0; i < n; i++ {
@@ -502,6 +526,9 @@ func (w *world) msmTerms(g *group, pool, rnd []pitem, r *vh.Rng, n int) []string
 			if !p.sub && k.Cmp(g.n) >= 0 {
 				k = r.BigBelow(g.n)
 			}
+		case light && x < 11:
+			// naive-model-only lengths: mostly 64-bit scalars (the naive affine model costs ~40 us per bit)
+			k = r.BigBits(64)
 		default:
 			k = r.BigBelow(g.n)
 		}
